@@ -46,6 +46,8 @@ static cocls::async<void> job_coawait(cocls::thread_pool &pool, int id) {
         co_await pool;
         mark_ran(id);
     } catch (const cocls::await_canceled_exception &) {
+        // a cancelled submission may look at the pool that refused it (retry logic does): must not dead-lock
+        if (!pool.is_stopped()) vrt_fail("pool/cancelled-by-running-pool", "job %d was cancelled although the pool is not stopped", id);
         mark_cancelled(id);
     }
 }
@@ -278,6 +280,32 @@ static void selfdestroy_scenario(int nworkers, bool other_job) {
     }
 }
 
+// a job on pool A creates, uses and destroys a helper pool B: A's worker must stay a worker of A and serve what follows
+static void two_pools_scenario(int how) {
+    int64_t *s = vrt_scratch();
+    {
+        auto poolA = std::make_unique<cocls::thread_pool>(1u);
+        cocls::thread_pool &A = *poolA;
+        A.run_detached([how] {
+            {
+                cocls::thread_pool B(1u);
+                B.run_detached([] { mark_ran(1); });
+                if (how == 1) B.stop();
+            }  // ~B on a worker of A
+            mark_ran(0);
+        });
+        A.run_detached([&A] {
+            if (!is_current(A)) vrt_fail("pool/worker-forgot-its-pool", "a job of pool A runs on a thread that does not count as A's worker");
+            mark_ran(2);
+        });
+        vrt_label("main-wait-jobs");
+        while (!s[S_RAN] || !s[S_RAN + 2]) vrt_yield();
+        vrt_label("main");
+        poolA.reset();
+        vrt_outcome("helper-job-ran=%ld", (long)s[S_RAN + 1]);
+    }
+}
+
 // resume()-based submissions on a pool that stays alive until everything ran (no stop involved, so none of this is
 // the known finding): a suspend point with two handles, and co_await pool(future) whose future is resolved by
 // another thread while the coroutine is still suspending
@@ -333,6 +361,8 @@ VRT_REGISTER(reg_pool) {
     for (int w = 1; w <= 2; w++) {
         for (int o = 0; o < 2; o++) vrt::add("pool_w" + std::to_string(w) + "_selfdestroy" + (o ? "_otherjob" : ""), [=] { selfdestroy_scenario(w, o != 0); });
         vrt::add("pool_w" + std::to_string(w) + "_live_resume2", [=] { resume_two_handles(w); });
+        if (w == 1)
+            for (int how = 0; how < 2; how++) vrt::add(std::string("pool_w1_live_twopools_") + (how ? "stop" : "dtor"), [=] { two_pools_scenario(how); });
         vrt::add("pool_w" + std::to_string(w) + "_live_coawaitfut-concurrent", [=] { coawait_fut_concurrent(w); });
     }
     for (int w = 2; w <= 3; w++)
